@@ -33,6 +33,30 @@ def fam_rand(size):
     return f
 
 
+def fam_crossing(tier, seed, n):
+    return randscenes.crossing_scenes(seed, n), None
+
+
+def fam_tail(tier, seed, n):
+    """ canonical run followed by calls that must be refused (find_groups, metarize groups) and by repeated permitted stages:
+    the accounting of the hits must survive them """
+    out = []
+    tails = [[['find_groups', '']], [['metarize', 'groups']], [['find_groups', ''], ['find_layers', '']], [['find_layers', ''], ['find_groups', '']],
+             [['find_slices', ''], ['find_groups', '']]]
+    for i, d in enumerate(randscenes.rand_scenes(seed, n, 'tiny', tag='T') if n <= 200 else randscenes.rand_scenes(seed, n, 'tiny', tag='T')):
+        d = dict(d)
+        d.pop('gedit', None)
+        d['ops'] = [['construct', ''], ['find_slices', ''], ['find_groups', ''], ['find_layers', '']] + tails[i % len(tails)] + [['metar_msg', 'layers']]
+        d['family'] = 'F6tail'
+        out.append(d)
+    for i, d in enumerate(scenes.band_descs(tier, seed, min(n, 150))[0]):      # scenes in which groups merge
+        d = dict(d)
+        d['ops'] = [['construct', ''], ['find_slices', ''], ['find_groups', ''], ['find_layers', '']] + tails[i % len(tails)] + [['metar_msg', 'layers']]
+        d['family'] = 'F6tail'
+        out.append(d)
+    return out, None
+
+
 def fam_anomaly(tier, seed, n):
     return randscenes.anomaly_scenes(seed, n), None
 
@@ -75,8 +99,8 @@ PLANS = {
         'mc': {'quick': [('msa', dict(invariants=['Inv_C01'], prmset='PrmMsaQ', ceilos=('a',), nt=3))],
                'thorough': [('msa', dict(invariants=['Inv_C01'], prmset='PrmMsa', ceilos=('a',), nt=3)),
                             ('msa2', dict(invariants=['Inv_C01'], prmset='PrmMsaQ', ceilos=('a', 'b'), nt=2, vv=True, maxper=1))]},
-        'families': {'quick': [('F2', fam_layer_tables, 700), ('F1', fam_model('PrmMsaQ'), 200), ('Rtiny', fam_rand('tiny'), 250), ('Rmid', fam_rand('mid'), 40)],
-                     'thorough': [('F2', fam_layer_tables, 30000), ('F1', fam_model('PrmMsa'), 6000), ('F1x', fam_model('PrmMsaQ', ceilos=('a',), nt=3), None), ('Rtiny', fam_rand('tiny'), 3000), ('Rmid', fam_rand('mid'), 400)]},
+        'families': {'quick': [('F2', fam_layer_tables, 700), ('F1', fam_model('PrmMsaQ'), 200), ('Rcross', fam_crossing, 80), ('Rtiny', fam_rand('tiny'), 250), ('Rmid', fam_rand('mid'), 40)],
+                     'thorough': [('F2', fam_layer_tables, 30000), ('F1', fam_model('PrmMsa'), 6000), ('F1x', fam_model('PrmMsaQ', ceilos=('a',), nt=3), None), ('Rcross', fam_crossing, 1000), ('Rtiny', fam_rand('tiny'), 3000), ('Rmid', fam_rand('mid'), 400)]},
         'marks': ['N_tok1', 'N_tok2', 'N_tok3', 'N_msaeq', 'N_abovemsa', 'N_suppressed', 'N_4rep', 'N_okta0row', 'N_ncd', 'N_nsc'],
     },
     'C02': {
@@ -84,8 +108,8 @@ PLANS = {
         'mc': {'quick': [('msa', dict(invariants=['Inv_C02'], prmset='PrmMsaQ', ceilos=('a',), nt=3))],
                'thorough': [('msa', dict(invariants=['Inv_C02'], prmset='PrmMsa', ceilos=('a',), nt=3)),
                             ('msa2', dict(invariants=['Inv_C02'], prmset='PrmMsaQ', ceilos=('a', 'b'), nt=2, vv=True, maxper=1))]},
-        'families': {'quick': [('F2', fam_layer_tables, 700), ('F1', fam_model('PrmMsaQ'), 200), ('Rtiny', fam_rand('tiny'), 250), ('Rmid', fam_rand('mid'), 40)],
-                     'thorough': [('F2', fam_layer_tables, 30000), ('F1', fam_model('PrmMsa'), 6000), ('F1x', fam_model('PrmMsaQ', ceilos=('a',), nt=3), None), ('Rtiny', fam_rand('tiny'), 3000), ('Rmid', fam_rand('mid'), 400)]},
+        'families': {'quick': [('F2', fam_layer_tables, 700), ('F1', fam_model('PrmMsaQ'), 200), ('Rcross', fam_crossing, 80), ('Rtiny', fam_rand('tiny'), 250), ('Rmid', fam_rand('mid'), 40)],
+                     'thorough': [('F2', fam_layer_tables, 30000), ('F1', fam_model('PrmMsa'), 6000), ('F1x', fam_model('PrmMsaQ', ceilos=('a',), nt=3), None), ('Rcross', fam_crossing, 1000), ('Rtiny', fam_rand('tiny'), 3000), ('Rmid', fam_rand('mid'), 400)]},
         'marks': ['N_ceilnotfirst', 'N_msaeq', 'N_abovemsa', 'N_ncd', 'N_nsc', 'N_flagedge', 'N_suppressed', 'N_okta0row'],
         'seed_shift': 7,
     },
@@ -105,7 +129,7 @@ PLANS = {
                'thorough': [('base', dict(invariants=['Inv_C04'], prmset='PrmBase', ceilos=('a', 'b'), nt=2, maxper=1)),
                             ('code', dict(invariants=['Inv_C04'], prmset='PrmBaseQ', ceilos=('a', 'b'), nt=2, lattice='LatticeB', maxper=1)),
                             ('base3', dict(invariants=['Inv_C04'], prmset='PrmBase', ceilos=('a',), nt=4, orders=('asc', 'desc')))]},
-        'families': {'quick': [('F3', fam_bands, 500), ('F3b', fam_split, 150), ('F3c', fam_boundary, 300), ('Rtiny', fam_rand('tiny'), 300), ('Rmid', fam_rand('mid'), 60)],
+        'families': {'quick': [('F3', fam_bands, 500), ('F3b', fam_split, 150), ('F3c', fam_boundary, 300), ('Rcross', fam_crossing, 60), ('Rtiny', fam_rand('tiny'), 300), ('Rmid', fam_rand('mid'), 60)],
                      'thorough': [('F3', fam_bands, None), ('F3b', fam_split, 3000), ('F3c', fam_boundary, 4000), ('Rtiny', fam_rand('tiny'), 4000), ('Rmid', fam_rand('mid'), 600), ('Rbig', fam_rand('big'), 60)]},
         'marks': ['N_lookback', 'N_baseties', 'N_excl', 'N_fallback', 'N_interp', 'N_above10k', 'N_floattie', 'N_nearboundary'],
         'seed_shift': 13,
@@ -119,8 +143,8 @@ PLANS = {
                             ('ids2', dict(invariants=['Inv_C05'], prmset='PrmSplit', ceilos=('a',), nt=2, slice_oracle='any', group_oracle='hits')),
                             ('ids3', dict(invariants=['Inv_C05'], prmset='PrmSplit', ceilos=('a', 'b'), nt=2, slice_oracle='bands', group_oracle='slices')),
                             ('layerids', 'MC_LayerIds')]},
-        'families': {'quick': [('F4stress', fam_stress, 2), ('F3b', fam_split, 120), ('F1', fam_model('PrmSplit'), 200), ('Ranomaly', fam_anomaly, 150), ('Rtiny', fam_rand('tiny'), 250), ('Rmid', fam_rand('mid'), 80)],
-                     'thorough': [('F4stress', fam_stress, 8), ('F3b', fam_split, 2000), ('F1', fam_model('PrmSplit'), 5000), ('F1x', fam_model('PrmSplit', ceilos=('a',), nt=3), None), ('Ranomaly', fam_anomaly, 2000), ('Rtiny', fam_rand('tiny'), 3000), ('Rmid', fam_rand('mid'), 800), ('Rbig', fam_rand('big'), 80)]},
+        'families': {'quick': [('F4stress', fam_stress, 2), ('F3b', fam_split, 120), ('F1', fam_model('PrmSplit'), 200), ('Ranomaly', fam_anomaly, 150), ('F6tail', fam_tail, 120), ('Rtiny', fam_rand('tiny'), 250), ('Rmid', fam_rand('mid'), 80)],
+                     'thorough': [('F4stress', fam_stress, 8), ('F3b', fam_split, 2000), ('F1', fam_model('PrmSplit'), 5000), ('F1x', fam_model('PrmSplit', ceilos=('a',), nt=3), None), ('Ranomaly', fam_anomaly, 2000), ('F6tail', fam_tail, 1500), ('Rtiny', fam_rand('tiny'), 3000), ('Rmid', fam_rand('mid'), 800), ('Rbig', fam_rand('big'), 80)]},
         'marks': ['N_split', 'N_split3', 'N_gmm1', 'N_merge', 'N_crop', 'N_cropdrop', 'N_multihit'],
         'seed_shift': 17,
     },
